@@ -80,6 +80,13 @@ fn gen_c17(rng: &mut Rng, thorough: bool, out: &mut Cases) {
                 }
             }
         }
+        // a call far outside the guarded range (the last units of the u64 range), then small in-range values
+        for y in [u64::MAX as u128, u64::MAX as u128 - unit + 1, u64::MAX as u128 / unit * unit, (u64::MAX as u128 / unit - 1) * unit] {
+            for x in [0u128, 1, unit - 1, unit, 448_383, 448_384, 551_615, 551_616] {
+                vals.push(y);
+                vals.push(x);
+            }
+        }
         for v in vals {
             let mut w = W::new();
             w.n(v & (u64::MAX as u128));
@@ -185,6 +192,50 @@ pub fn gen_flip_sequences(rng: &mut Rng, n: usize, out: &mut Cases) {
         let mut buf = b.clone();
         buf.extend_from_slice(&a);
         push_parse(out, 25, sh, &None, &buf);
+    }
+}
+
+/// op 39: a receiver's buffer that is parsed again and again as more data arrives, and is then reused for the next
+/// message: a cut of a long message A, a longer cut of A, then cuts of a DIFFERENT (shorter) message B that are longer
+/// than A's first cut, then B complete.  `missing + 1` travels with every proper prefix (0 = not a prefix).
+pub fn gen_inplace(rng: &mut Rng, n: usize, out: &mut Cases) {
+    for i in 0..n {
+        let sh = i % 2 == 0;
+        let big = MsgOpts { storage: Some(sh), dict: false, max_blob: 300, max_args: 6, ..MsgOpts::default() };
+        let small = MsgOpts { storage: Some(sh), dict: false, max_blob: 30, max_args: 3, ..MsgOpts::default() };
+        let (a, b) = (gen_message(rng, &big), gen_message(rng, &small));
+        let (ab, bb) = match (std::panic::catch_unwind(|| a.as_bytes()), std::panic::catch_unwind(|| b.as_bytes())) {
+            (Ok(x), Ok(y)) => (x, y),
+            _ => continue,
+        };
+        let (ab, bb) = if ab.len() >= bb.len() { (ab, bb) } else { (bb, ab) };
+        if bb.len() < 8 {
+            continue;
+        }
+        let storage = if sh { 16 } else { 0 };
+        // cuts of A shortly behind its headers, cuts of B further in
+        let ka = (storage + 14 + rng.below(6) as usize).min(ab.len() - 1).min(bb.len() - 2);
+        let ka2 = (ka + 1 + rng.below(4) as usize).min(ab.len() - 1);
+        let kb = (ka + 1 + rng.below((bb.len() - ka - 1) as u64) as usize).min(bb.len() - 1);
+        let mut items: Vec<(usize, Vec<u8>)> = vec![
+            (ab.len() - ka + 1, ab[..ka].to_vec()),
+            (ab.len() - ka2 + 1, ab[..ka2].to_vec()),
+            (bb.len() - kb + 1, bb[..kb].to_vec()),
+            (0, bb.clone()),
+            (bb.len() - ka + 1, bb[..ka].to_vec()),
+            (0, ab.clone()),
+        ];
+        if i % 3 == 0 {
+            items.swap(1, 2);
+        }
+        let mut w = W::new();
+        w.bool(sh);
+        w.n(items.len() as u128);
+        for (missing, it) in &items {
+            w.n(*missing as u128);
+            w.b(it);
+        }
+        out.push(39, w);
     }
 }
 
@@ -615,7 +666,11 @@ pub fn gen_filter(rng: &mut Rng, m: Option<&Message>) -> DltFilterConfig {
     let context_ids = ids(rng, ctx.as_ref());
     let cnt = |rng: &mut Rng, s: &Option<Vec<String>>| -> i64 {
         let n = s.as_ref().map(|v| v.len() as i64).unwrap_or(0);
-        *rng.pick(&[0i64, n - 1, n, n + 1, n - 2, 100, -1, i64::MAX, i64::MIN])
+        // (and counts whose DIFFERENCE to the set size is a multiple of a narrower integer's range)
+        *rng.pick(&[
+            0i64, n - 1, n, n + 1, n - 2, 100, -1, i64::MAX, i64::MIN, n - 1, n, n + 1,
+            n + (1 << 32), n + (1 << 32) + 1, n + (1 << 33), n - (1 << 32), n + (1 << 16), n + 256, n + (1 << 31), 1 << 32, (1 << 32) - 1, 1 << 31,
+        ])
     };
     let app_id_count = cnt(rng, &app_ids);
     let context_id_count = cnt(rng, &context_ids);
@@ -714,6 +769,7 @@ fn gen_c04(rng: &mut Rng, thorough: bool, out: &mut Cases) {
     }
     gen_orphan_headers(rng, if thorough { 200 } else { 30 }, out);
     gen_flip_sequences(rng, if thorough { 2000 } else { 200 }, out);
+    gen_inplace(rng, if thorough { 4000 } else { 400 }, out);
     hostile_inputs(rng, n, &mut ins);
     dialect_inputs(rng, n / 2, &mut ins);
     for (i, (sh, bs)) in ins.iter().enumerate() {
@@ -819,6 +875,7 @@ fn gen_c05(rng: &mut Rng, thorough: bool, out: &mut Cases) {
         }
         out.push(31, w);
     }
+    gen_inplace(rng, if thorough { 6000 } else { 600 }, out);
     // junk in front of a cut message (C05 through C06)
     gen_junkcut(rng, if thorough { 200 } else { 25 }, out);
     // boundary totals (length field 65519 .. 65535) at selected cut positions, both storage modes
@@ -1076,6 +1133,31 @@ fn gen_c13(rng: &mut Rng, thorough: bool, out: &mut Cases) {
             out.push(13, w);
         }
     }
+    // complete payloads followed by gigabytes of zeros (payload lengths around 2^31 and 2^32)
+    for (i, zeros) in [1u128 << 16, (1 << 31) - 11, 1 << 31, (1 << 31) + 4096, 3 << 30, (1u128 << 32) - 11, (1u128 << 32) + 5].iter().enumerate() {
+        if !thorough && i % 2 == 1 && i > 1 {
+            continue;
+        }
+        let tys = vec![
+            TypeInfo { kind: TypeInfoKind::Unsigned(TypeLength::BitLength16), coding: StringCoding::ASCII, has_variable_info: false, has_trace_info: false },
+            TypeInfo { kind: TypeInfoKind::Bool, coding: StringCoding::ASCII, has_variable_info: false, has_trace_info: false },
+            TypeInfo { kind: TypeInfoKind::StringType, coding: StringCoding::UTF8, has_variable_info: false, has_trace_info: false },
+            TypeInfo { kind: TypeInfoKind::Signed(TypeLength::BitLength32), coding: StringCoding::ASCII, has_variable_info: false, has_trace_info: false },
+        ];
+        let be = i % 2 == 0;
+        let mut data = vec![0x12, 0x34, 1];
+        data.extend_from_slice(&if be { 2u16.to_be_bytes() } else { 2u16.to_le_bytes() });
+        data.extend_from_slice(&[0xc3, 0xa9, 0xff, 0xff, 0xff, 0xfe]);
+        let mut w = W::new();
+        w.endian(if be { Endianness::Big } else { Endianness::Little });
+        w.n(tys.len() as u128);
+        for t in &tys {
+            w.ti(t);
+        }
+        w.b(&data);
+        w.n(*zeros);
+        out.push(44, w);
+    }
     gen_c13_n(rng, n, out)
 }
 
@@ -1171,12 +1253,34 @@ fn gen_c15(rng: &mut Rng, thorough: bool, out: &mut Cases) {
         w.arg(&a);
         out.push(14, w);
     }
-    for i in 0..n / 2 {
+    gen_c15_new(rng, n / 2, out);
+}
+
+pub fn gen_c15_new(rng: &mut Rng, n: usize, out: &mut Cases) {
+    for i in 0..n {
         let mut o = msg_opts_for(rng, i);
         if i % 2 == 0 {
             o.target_total = None;
         }
-        let m = gen_message(rng, &o);
+        let mut m = gen_message(rng, &o);
+        if i % 6 == 1 {
+            // configurations whose arguments are OUTSIDE the well-formed domain (name/unit presence against the
+            // variable-info flag, a value of another kind or width): the constructor's bookkeeping must still
+            // describe what the writer emits
+            if let PayloadContent::Verbose(args) = &mut m.payload {
+                if !args.is_empty() {
+                    let k = rng.below(args.len() as u64) as usize;
+                    let a = &mut args[k];
+                    match rng.below(5) {
+                        0 => a.value = gen_arg(rng, 12).value,
+                        1 => a.name = None,
+                        2 => a.unit = if a.unit.is_some() { None } else { Some("u".to_string()) },
+                        3 => a.type_info.has_variable_info = !a.type_info.has_variable_info,
+                        _ => a.type_info.kind = gen_kind(rng),
+                    }
+                }
+            }
+        }
         // a configuration consistent with the payload kind
         let c = MessageConfig {
             version: m.header.version,
@@ -1306,6 +1410,15 @@ pub fn gen_new_then_stable(rng: &mut Rng, n: usize, out: &mut Cases) {
 }
 
 fn gen_c02(rng: &mut Rng, thorough: bool, out: &mut Cases) {
+    // the constructor's length bookkeeping for configurations in and outside the well-formed domain (the writer is
+    // what the layout clause is about; Message::new decides the LEN field it writes)
+    {
+        let mut tmp = Cases::new();
+        gen_c15_new(rng, if thorough { 4000 } else { 600 }, &mut tmp);
+        for l in tmp.lines {
+            out.lines.push(l);
+        }
+    }
     for m in gen_twin_messages(rng, 40) {
         let mut w = W::new();
         w.msg(&m);
@@ -1507,6 +1620,38 @@ pub fn straddling_ids(out: &mut Cases) {
 fn gen_c19(rng: &mut Rng, thorough: bool, out: &mut Cases) {
     header_cut_sweep(rng, out);
     straddling_ids(out);
+    // fields of 8..24 bytes in which 0x01 / 0x80 / 0x81 / 0x7f stand directly before or behind the first NUL, at every
+    // position (word-at-a-time terminator searches have their false positives exactly there)
+    for size in [8usize, 9, 15, 16, 17, 24] {
+        for pos in 0..size {
+            for near in [0x01u8, 0x80, 0x81, 0x7f, 0xff, 0x02] {
+                for variant in 0..3 {
+                    let mut s: Vec<u8> = (0..size).map(|k| b'a' + (k % 26) as u8).collect();
+                    s[pos] = 0;
+                    match variant {
+                        0 if pos > 0 => s[pos - 1] = near,
+                        1 if pos + 1 < size => s[pos + 1] = near,
+                        2 if pos > 1 => {
+                            s[pos - 1] = near;
+                            s[pos - 2] = near;
+                        }
+                        _ => continue,
+                    }
+                    if near >= 0x80 && variant != 1 {
+                        // keep the text in front valid UTF-8 for half of them: a two-byte character ending at pos
+                        if pos >= 2 && near != 0xff {
+                            s[pos - 2] = 0xc2;
+                        }
+                    }
+                    s.extend_from_slice(b"++");
+                    let mut w = W::new();
+                    w.n(size as u128);
+                    w.b(&s);
+                    out.push(3, w);
+                }
+            }
+        }
+    }
     let alphabet: [u8; 25] = [
         0x00, 0x41, 0x7F, 0x80, 0x8F, 0x90, 0x9F, 0xA0, 0xBF, 0xC0, 0xC1, 0xC2, 0xDF, 0xE0, 0xE1, 0xEC, 0xED, 0xEE, 0xEF, 0xF0, 0xF1,
         0xF3, 0xF4, 0xF5, 0xFF,
@@ -1723,6 +1868,54 @@ fn gen_c14(rng: &mut Rng, thorough: bool, out: &mut Cases) {
             w.n(0);
             w.b(&v);
             out.push(8, w);
+        }
+    }
+    // hand-built descriptions OUTSIDE what the decoder can produce (reserved string codings 0, 1, 8, 9, 255, with the
+    // coding also on non-string kinds) are SERIALISED first, then messages carrying every coding are parsed: whatever
+    // the writer leaves behind must not reach the decoder
+    for round in 0..2 {
+        for v in [0u8, 1, 8, 9, 15, 255, 3] {
+            for kind in [TypeInfoKind::StringType, TypeInfoKind::Raw, TypeInfoKind::Unsigned(TypeLength::BitLength8), TypeInfoKind::Bool] {
+                let value = match kind {
+                    TypeInfoKind::StringType => Value::StringVal("ab".into()),
+                    TypeInfoKind::Raw => Value::Raw(vec![1, 2]),
+                    TypeInfoKind::Bool => Value::Bool(1),
+                    _ => Value::U8(7),
+                };
+                let a = Argument {
+                    type_info: TypeInfo { kind, coding: StringCoding::Reserved(v), has_variable_info: false, has_trace_info: round == 1 },
+                    name: None,
+                    unit: None,
+                    fixed_point: None,
+                    value,
+                };
+                let mut w = W::new();
+                w.endian(if round == 0 { Endianness::Big } else { Endianness::Little });
+                w.arg(&a);
+                out.push(14, w);
+            }
+        }
+        for be in [false, true] {
+            for scod in 0..8u32 {
+                for base in [0x200u32, 0x400, 0x41, 0x11] {
+                    let ti = base | (scod << 15) | if round == 1 { 0x2000 } else { 0 };
+                    let tib = if be { ti.to_be_bytes() } else { ti.to_le_bytes() };
+                    let mut p = tib.to_vec();
+                    match base {
+                        0x200 | 0x400 => {
+                            p.extend_from_slice(&if be { 3u16.to_be_bytes() } else { 3u16.to_le_bytes() });
+                            p.extend_from_slice(&[0x61, 0x62, 0x00]);
+                        }
+                        _ => p.push(1),
+                    }
+                    let mut v = vec![0x21 | if be { 2 } else { 0 }, 0x07, 0, 0, 0x41, 1, 0x41, 0x50, 0x50, 0x00, 0x43, 0x54, 0x58, 0x00];
+                    v.extend_from_slice(&p);
+                    let l = v.len() as u16;
+                    v[2] = (l >> 8) as u8;
+                    v[3] = l as u8;
+                    push_parse(out, 8, false, &None, &v);
+                }
+            }
         }
     }
     // the same argument bytes read in both byte orders, one after the other
